@@ -440,6 +440,105 @@ def check_schedule(rep, prog):
            what='conflicts and missing jobs are reported, inputs are not modified')
 
 
+
+def c_sym_paths(cf, env0, table):
+    """symbolic execution of a small C function (assignments, if on comparisons of symbolic values or on flags holding such
+    comparisons, for-loops with constant bounds): list of (path conditions [(text, truth)], returned Rat)"""
+    out = []
+
+    def tr(e, env):
+        def ih(T, x):
+            if isinstance(x.value, ast.Name) and x.value.id == 'p' and table:
+                i = T.tr(x.slice)
+                if i.is_const():
+                    return Rat.const(Fraction(repr(table[int(i.const_value())])))
+            return None
+        return Translator(dict((k, v) for k, v in env.items() if isinstance(v, Rat)), index_hook=ih).tr(e)
+
+    def cond_of(e, env, conds):
+        """-> (text, truth or None)"""
+        if isinstance(e, ast.Name) and isinstance(env.get(e.id), tuple) and env[e.id][0] == 'cond':
+            text = env[e.id][1]
+        elif isinstance(e, ast.Compare):
+            # comparisons are about the ORIGINAL argument only when z has not been rebound; otherwise refuse
+            l = tr(e.left, env)
+            if not l.equals(Rat.atom('z')):
+                raise AnalysisError('regime test on a modified value: %s' % unparse(e))
+            text = unparse(e)
+        else:
+            raise AnalysisError('unsupported condition %s' % unparse(e))
+        for t, v in conds:
+            if t == text:
+                return text, v
+        return text, None
+
+    def run(stmts, env, conds):
+        env = dict(env)
+        for i, st in enumerate(stmts):
+            if isinstance(st, CDecl):
+                if st.init is not None and not st.array:
+                    env[st.name] = tr(st.init, env)
+                continue
+            if isinstance(st, CAssign):
+                name = unparse(st.target)
+                if isinstance(st.value, ast.Compare) and st.op == '=':
+                    l = tr(st.value.left, env)
+                    if not l.equals(Rat.atom('z')):
+                        raise AnalysisError('flag computed from a modified value')
+                    env[name] = ('cond', unparse(st.value))
+                    continue
+                v = tr(st.value, env)
+                if st.op == '=':
+                    env[name] = v
+                else:
+                    cur = env.get(name)
+                    if not isinstance(cur, Rat):
+                        raise AnalysisError('update of an unset variable %s' % name)
+                    env[name] = {'+=': cur + v, '-=': cur - v, '*=': cur * v, '/=': cur / v}[st.op]
+                continue
+            if isinstance(st, CFor):
+                var = unparse(st.init.target)
+                lo = tr(st.init.value, env)
+                hi = tr(st.cond.comparators[0], env)
+                if not (lo.is_const() and hi.is_const() and isinstance(st.cond.ops[0], ast.Lt)):
+                    raise AnalysisError('loop bounds are not constants')
+                for k in range(int(lo.const_value()), int(hi.const_value())):
+                    env[var] = Rat.const(k)
+                    sub = run_block_nofork(st.body, env)
+                    env = sub
+                continue
+            if isinstance(st, CIf):
+                text, truth = cond_of(st.cond, env, conds)
+                rest = stmts[i + 1:]
+                for tv in ((truth,) if truth is not None else (True, False)):
+                    run((st.body if tv else st.orelse) + rest, env, conds + [(text, tv)] if truth is None else conds)
+                return
+            if isinstance(st, CReturn):
+                out.append((conds, tr(st.value, env)))
+                return
+            if isinstance(st, CExpr):
+                continue
+            raise AnalysisError('unsupported statement')
+        out.append((conds, None))
+
+    def run_block_nofork(stmts, env):
+        env = dict(env)
+        for st in stmts:
+            if isinstance(st, CAssign):
+                name = unparse(st.target)
+                v = tr(st.value, env)
+                if st.op == '=':
+                    env[name] = v
+                else:
+                    cur = env[name]
+                    env[name] = {'+=': cur + v, '-=': cur - v, '*=': cur * v, '/=': cur / v}[st.op]
+            else:
+                raise AnalysisError('unsupported statement in loop body')
+        return env
+    run(list(cf.body), dict(env0), [])
+    return out
+
+
 def check_pdfs(rep, prog):
     cprog = CProgram(files=['dadi/DFE/PDFs.c'])
     rel = 'dadi/DFE/PDFs.c'
@@ -565,17 +664,31 @@ def check_pdfs(rep, prog):
             vals.append(-v.operand.value if isinstance(v, ast.UnaryOp) else v.value)
         okt = vals == pub
     rep.ob('R-ALG', 'C gamma_func Lanczos table', okt, 'coefficients p[0..7] of the g=7, n=9 Lanczos approximation', rel, gf.line, what='published Lanczos coefficients')
-    iff = [s for s in gf.body if isinstance(s, CIf)]
+    # symbolic evaluation of gamma_func on both sides of its regime switch (any statement order, recursive or in-line
+    # reflection): y(z >= 1/2) must be the Lanczos value L(z), y(z < 1/2) must be pi / (sin(pi z) * Gamma(1 - z)) with
+    # Gamma(1 - z) either the recursive call or L(1 - z)
     okr = False
-    if iff:
-        refl = iff[0].body[0]
-        els = iff[0].orelse
-        txt = [unparse(s.target) + s.op + unparse(s.value) if isinstance(s, CAssign) else 'for' for s in els]
-        okr = unparse(iff[0].cond) == 'z < 0.5' and unparse(refl.value).replace('3.141592653589793', 'PI') == 'PI / (sin(PI * z) * gamma_func(1.0 - z))' and \
-            txt[0] == 'z-=1' and txt[1] == 'x=0.9999999999998099' and txt[3] == 't=z + 8 - 0.5' and txt[4].replace('3.141592653589793', 'PI') == 'y=sqrt(2 * PI) * pow(t, z + 0.5) * exp(-t) * x'
-        lp = els[2]
-        okr = okr and isinstance(lp, CFor) and unparse(lp.cond) == 'ii < 8' and unparse(lp.body[0].value) == 'p[ii] / (z + ii + 1)' and lp.body[0].op == '+='
-    rep.ob('R-ALG', 'C gamma_func recurrence', okr, 'reflection for z < 0.5; x = c0 + sum p_i/(z+i+1); t = z + 7.5; y = sqrt(2 pi) t^(z+1/2) e^-t x', rel, gf.line, what='Lanczos evaluation and reflection formula')
+    det = ''
+    try:
+        paths = c_sym_paths(gf, {'z': Rat.atom('z')}, vals if tab else [])
+        PI = '3.141592653589793'
+
+        def lanczos(w):
+            zz = '((%s) - 1)' % w
+            xs = ' + '.join(['0.99999999999980993'] + ['(%r)/(%s + %d + 1)' % (pv, zz, i) for i, pv in enumerate(pub)])
+            return parse_expr('sqrt(2*%s) * pow(%s + 8 - 0.5, %s + 0.5) * exp(-(%s + 8 - 0.5)) * (%s)' % (PI, zz, zz, zz, xs))
+        L_z = lanczos('z')
+        refl_rec = parse_expr('%s/(SINPIZ * GREC)' % PI).subs({'SINPIZ': parse_expr('sin(%s*z)' % PI), 'GREC': parse_expr('gamma_func(1.0 - z)')})
+        refl_inl = parse_expr('%s/(SINPIZ * LL)' % PI).subs({'SINPIZ': parse_expr('sin(%s*z)' % PI), 'LL': lanczos('1 - z')})
+        small = [r for conds, r in paths if ('z < 0.5', True) in conds]
+        large = [r for conds, r in paths if ('z < 0.5', False) in conds]
+        ok_l = len(large) >= 1 and all(r is not None and r.equals(L_z) for r in large)
+        ok_s = len(small) >= 1 and all(r is not None and (r.equals(refl_rec) or r.equals(refl_inl)) for r in small)
+        okr = ok_l and ok_s
+        det = 'z >= 1/2: %s; z < 1/2: %s' % ('Lanczos value' if ok_l else 'NOT the Lanczos value', 'reflection formula' if ok_s else 'NOT pi/(sin(pi z) Gamma(1-z)): %s' % (small[0].canon()[:160] if small and small[0] is not None else '?'))
+    except (AlgebraError, AnalysisError, IndexError, KeyError, AttributeError) as e:
+        det = 'not evaluable: %s' % e
+    rep.ob('R-ALG', 'C gamma_func recurrence', okr, det, rel, gf.line, what='Lanczos evaluation and reflection formula')
     # wrappers
     pyx = PyxModule('dadi/DFE/PDFs_cython.pyx')
     for name in ('biv_lognormal', 'biv_ind_gamma'):
